@@ -13,14 +13,14 @@ Doc == TraceDoc
 Traces == Doc.traces
 TNBk == Doc.nbk
 TRuns == Doc.runs
-VarOf(e) == [prog |-> e.var.prog, on |-> ToSet(e.var.on), route |-> e.var.route, inout |-> e.var.inout, dev |-> e.var.dev]
+VarOf(e) == [prog |-> e.var.prog, on |-> ToSet(e.var.on), route |-> e.var.route, inout |-> e.var.inout, dev |-> e.var.dev, env |-> e.var.env]
 \* the variants occurring in the document, listed by the recorder (Doc.variants): only the range of NextRun's choice; a
 \* comprehension over all events of all traces here costs a JSON parse per reference at start-up (measured: quadratic)
-TVariants == { [prog |-> Doc.variants[i].prog, on |-> ToSet(Doc.variants[i].on), route |-> Doc.variants[i].route, inout |-> Doc.variants[i].inout, dev |-> Doc.variants[i].dev] : i \in 1..Len(Doc.variants) }
+TVariants == { [prog |-> Doc.variants[i].prog, on |-> ToSet(Doc.variants[i].on), route |-> Doc.variants[i].route, inout |-> Doc.variants[i].inout, dev |-> Doc.variants[i].dev, env |-> Doc.variants[i].env] : i \in 1..Len(Doc.variants) }
 TInits == {}
 TNone == {}
 TTargets == {"out", "out2"}
-TAllPts == [stage : UNION {StageSet(v) : v \in TVariants}, when : {"before", "after", "mid", "inside"}]
+TAllPts == [stage : UNION {StageSet(v) : v \in TVariants}, when : {"before", "after", "mid", "inside", "env"}]
 ASSUME TLCSet(1, {}) /\ TLCSet(2, [t \in 1..Len(Traces) |-> 0])
 Evs == Traces[tid].events
 Count(s, c) == Cardinality({i \in DOMAIN s : s[i] = c})
@@ -39,6 +39,7 @@ TInit == /\ tid \in 1..Len(Traces) /\ l = 2
          /\ queue = <<>> /\ cur = Nil /\ loose = <<>>
          /\ pc = 0 /\ sub = "idle" /\ idx = 0 /\ status = "running"
          /\ last = [kind |-> "init", stage |-> "-", when |-> "-"]
+         /\ envst = "ok"
 TNext == /\ Next
          /\ IF last'.kind = "micro" THEN l' = l
             ELSE /\ l <= Len(Evs)
